@@ -698,7 +698,7 @@ class C08(vlib.Spec):
             out.append(self.g_part(rng, big=True))
         for _ in range(min(20, max(4, n // 1000))):
             out.append(self.g_mpart(rng, big=True))
-        for _ in range(max(200, n // 40)):
+        for _ in range(max(120, n // 75)):
             out.append(self.g_sq(rng))
         # end to end through a real TSDB: ~2 s per line, so only a handful of datasets (x3 configurations)
         for _ in range(min(60, max(8, n // 1100))):
